@@ -888,6 +888,20 @@ pos_sel_p(const bitint383_t *poss, size_t idx, size_t n)
 	return false;
 }
 
+static bool
+pos_any_p(const bitint383_t *poss, size_t n)
+{
+/* is there a position in POSS at all that a period of N instants has */
+	int pos;
+
+	for (bitint_iter_t i = 0UL; (pos = bi383_next(&i, poss), i);) {
+		if ((size_t)(pos > 0 ? pos : -pos) <= n) {
+			return true;
+		}
+	}
+	return false;
+}
+
 static size_t
 cnt_cand(const bitint383_t *cand)
 {
@@ -1579,6 +1593,30 @@ rrul_fill_wly(echs_instant_t *restrict tgt, size_t nti, rrulsp_t rr)
 		unsigned int this_d = d;
 		unsigned int this_m = m;
 		unsigned int this_y = y;
+		/* positions count the instants of the week */
+		size_t npos = 0U;
+		size_t ipos = 0U;
+
+		if (UNLIKELY(bi383_has_bits_p(&rr->pos))) {
+			/* count the days of this week that get past the
+			 * month mask, same walk as below */
+			uint_fast32_t ci = wd_incs;
+			unsigned int cd = d, cm = m, cy = y, cmaxd = maxd;
+
+			do {
+				cd += ci & 0b1111U;
+				while (cmaxd && cd > cmaxd) {
+					cd -= cmaxd;
+					if (++cm > 12U) {
+						cy++;
+						cm = 1U;
+					}
+					cmaxd = echs_scale_ndim(srcsca, cy, cm);
+				}
+				npos += !!(m_mask & (1U << cm));
+			} while ((ci >>= 4U));
+			npos *= e.nS * e.nM * e.nH;
+		}
 
 		do {
 			this_d += incs & 0b1111U;
@@ -1610,15 +1648,20 @@ rrul_fill_wly(echs_instant_t *restrict tgt, size_t nti, rrulsp_t rr)
 					.ms = proto.ms,
 				};
 
+				if (!(m_mask & (1U << this_m))) {
+					/* skip this day, the next day of the week
+					 * might be in the next month already */
+					break;
+				} else if (npos &&
+					   !pos_sel_p(&rr->pos, ++ipos, npos)) {
+					/* not one of the instants asked for */
+					continue;
+				}
 				if (UNLIKELY(echs_instant_lt_p(x, proto))) {
 					continue;
 				}
 				if (UNLIKELY(echs_instant_lt_p(until, x))) {
 					goto fin;
-				} else if (!(m_mask & (1U << this_m))) {
-					/* skip this day, the next day of the week
-					 * might be in the next month already */
-					break;
 				}
 				/* attach scale and convert back to greg */
 				x = echs_instant_attach_scale(x, srcsca);
@@ -1643,6 +1686,7 @@ rrul_fill_dly(echs_instant_t *restrict tgt, size_t nti, rrulsp_t rr)
 	unsigned int m = proto.m;
 	unsigned int d = proto.d;
 	size_t res = 0UL;
+	size_t ipos = 0U;
 	uint8_t wd_mask = 0U;
 	unsigned int m_mask = 0U;
 	uint_fast32_t posd_mask = 0U;
@@ -1684,15 +1728,22 @@ rrul_fill_dly(echs_instant_t *restrict tgt, size_t nti, rrulsp_t rr)
 		/* because we're subtractive, allow all days in the wd_mask if
 		 * all of the actual mask days are 0 */
 		wd_mask |= 0b11111110U;
-	} else if (rr->inter == 1U && !bi31_has_bits_p(rr->dom)) {
+	} else if (rr->inter == 1U && !bi31_has_bits_p(rr->dom) &&
+		   !bi383_has_bits_p(&rr->pos)) {
 		/* aaaah, what they want in fact is a weekly schedule
 		 * with the days in wd_mask,
-		 * however that one doesn't know about BYMONTHDAY */
+		 * however that one doesn't know about BYMONTHDAY,
+		 * and its BYSETPOS counts within the week */
 		return rrul_fill_wly(tgt, nti, rr);
 	}
 
 	/* generate a set of hours, minutes and seconds */
 	(void)make_enum(&e, proto, rr);
+	if (UNLIKELY(bi383_has_bits_p(&rr->pos) &&
+		     !pos_any_p(&rr->pos, e.nS * e.nM * e.nH))) {
+		/* no period has that many instants */
+		goto fin;
+	}
 
 	/* set up the month mask */
 	with (unsigned int tmp) {
@@ -1766,6 +1817,7 @@ rrul_fill_dly(echs_instant_t *restrict tgt, size_t nti, rrulsp_t rr)
 			continue;
 		}
 
+		ipos = 0U;
 		for (ENUM_INIT(e, iS, iM, iH);
 		     res < nti && ENUM_COND(e, iS, iM, iH); ENUM_ITER(e, iS, iM, iH)) {
 			echs_instant_t x = {
@@ -1777,6 +1829,11 @@ rrul_fill_dly(echs_instant_t *restrict tgt, size_t nti, rrulsp_t rr)
 				.S = e.S[iS],
 				.ms = proto.ms,
 			};
+			if (bi383_has_bits_p(&rr->pos) &&
+			    !pos_sel_p(&rr->pos, ++ipos, e.nS * e.nM * e.nH)) {
+				/* not one of the instants of the day asked for */
+				continue;
+			}
 			if (UNLIKELY(echs_instant_lt_p(x, proto))) {
 				continue;
 			} else if (UNLIKELY(echs_instant_lt_p(until, x))) {
@@ -1802,6 +1859,7 @@ rrul_fill_Hly(echs_instant_t *restrict tgt, size_t nti, rrulsp_t rr)
 	unsigned int d = proto.d;
 	unsigned int H = proto.H;
 	size_t res = 0UL;
+	size_t ipos = 0U;
 	uint8_t wd_mask = 0U;
 	unsigned int m_mask = 0U;
 	uint_fast32_t posd_mask = 0U;
@@ -1830,6 +1888,11 @@ rrul_fill_Hly(echs_instant_t *restrict tgt, size_t nti, rrulsp_t rr)
 
 	/* generate a set of minutes and seconds */
 	(void)make_enum(&e, proto, rr);
+	if (UNLIKELY(bi383_has_bits_p(&rr->pos) &&
+		     !pos_any_p(&rr->pos, e.nS * e.nM))) {
+		/* no period has that many instants */
+		goto fin;
+	}
 
 	/* set up the wday mask */
 	with (int tmp) {
@@ -1947,6 +2010,7 @@ rrul_fill_Hly(echs_instant_t *restrict tgt, size_t nti, rrulsp_t rr)
 		}
 
 	bang:
+		ipos = 0U;
 		for (ENUM_INIT(e, iS, iM);
 		     res < nti && ENUM_COND(e, iS, iM); ENUM_ITER(e, iS, iM)) {
 			echs_instant_t x = {
@@ -1959,6 +2023,11 @@ rrul_fill_Hly(echs_instant_t *restrict tgt, size_t nti, rrulsp_t rr)
 				.ms = proto.ms,
 			};
 
+			if (bi383_has_bits_p(&rr->pos) &&
+			    !pos_sel_p(&rr->pos, ++ipos, e.nS * e.nM)) {
+				/* not one of the instants of the hour asked for */
+				continue;
+			}
 			if (UNLIKELY(echs_instant_lt_p(x, proto))) {
 				continue;
 			} else if (UNLIKELY(echs_instant_lt_p(rr->until, x))) {
@@ -1981,6 +2050,7 @@ rrul_fill_Mly(echs_instant_t *restrict tgt, size_t nti, rrulsp_t rr)
 	unsigned int H = proto.H;
 	unsigned int M = proto.M;
 	size_t res = 0UL;
+	size_t ipos = 0U;
 	uint8_t wd_mask = 0U;
 	unsigned int m_mask = 0U;
 	uint_fast32_t posd_mask = 0U;
@@ -2006,6 +2076,11 @@ rrul_fill_Mly(echs_instant_t *restrict tgt, size_t nti, rrulsp_t rr)
 
 	/* generate a set of minutes and seconds */
 	(void)make_enum(&e, proto, rr);
+	if (UNLIKELY(bi383_has_bits_p(&rr->pos) &&
+		     !pos_any_p(&rr->pos, e.nS))) {
+		/* no period has that many instants */
+		goto fin;
+	}
 
 	/* set up the wday mask */
 	with (int tmp) {
@@ -2138,6 +2213,7 @@ rrul_fill_Mly(echs_instant_t *restrict tgt, size_t nti, rrulsp_t rr)
 			continue;
 		}
 
+		ipos = 0U;
 		for (ENUM_INIT(e, iS); res < nti && ENUM_COND(e, iS); ENUM_ITER(e, iS)) {
 			echs_instant_t x = {
 				.y = y,
@@ -2149,6 +2225,11 @@ rrul_fill_Mly(echs_instant_t *restrict tgt, size_t nti, rrulsp_t rr)
 				.ms = proto.ms,
 			};
 
+			if (bi383_has_bits_p(&rr->pos) &&
+			    !pos_sel_p(&rr->pos, ++ipos, e.nS)) {
+				/* not one of the instants of the minute asked for */
+				continue;
+			}
 			if (UNLIKELY(echs_instant_lt_p(x, proto))) {
 				continue;
 			} else if (UNLIKELY(echs_instant_lt_p(rr->until, x))) {
@@ -2194,6 +2275,11 @@ rrul_fill_Sly(echs_instant_t *restrict tgt, size_t nti, rrulsp_t rr)
 		H = 0U;
 		M = 0U;
 		S = 0U;
+	}
+
+	if (UNLIKELY(bi383_has_bits_p(&rr->pos) && !pos_any_p(&rr->pos, 1U))) {
+		/* a second holds one instant */
+		goto fin;
 	}
 
 	/* set up the wday mask */
@@ -2363,6 +2449,10 @@ rrul_fill_Sly(echs_instant_t *restrict tgt, size_t nti, rrulsp_t rr)
 			continue;
 		} else if (!(S_mask & (1ULL << S))) {
 			/* second is filtered */
+			continue;
+		} else if (bi383_has_bits_p(&rr->pos) &&
+			   !pos_sel_p(&rr->pos, 1U, 1U)) {
+			/* a second holds one instant, the first and the last */
 			continue;
 		}
 
